@@ -80,8 +80,8 @@ example : parLoop 0 32 0 = .panic "overflow" := by rfl
 included) the call does not panic; slot `j` of the work range is written exactly by the thread that owns it
 with the result of item `j`; every other slot is zeroed (the tail loops); nothing is left
 untouched. -/
-theorem execPrepare_table_partial (threads bits start count avail per : Nat) (ht : 1 ≤ threads)
-    (hr : start + count ≤ bits) (hs : threads * per ≤ avail) (h64 : per % 64 = 0) :
+theorem execPrepare_table (threads bits start count avail per : Nat) (ht : 1 ≤ threads)
+    (hr : start + count ≤ bits) (hs : threads * per ≤ avail) (hs2 : splitNeeded threads per ≤ avail) :
     ∃ acts, execPrepare threads bits start count avail per = .ok acts ∧ acts.length = bits ∧
       ∀ j (h : j < acts.length),
         if start ≤ j ∧ j < start + count then ∃ t, t < threads ∧ acts[j] = Act.item t t j
@@ -91,9 +91,13 @@ theorem execPrepare_table_partial (threads bits start count avail per : Nat) (ht
   have h1 : ¬ (start + count > bits) := by omega
   have h2 : ¬ (avail < threads * per) := by omega
   have h0 : ¬ (threads = 0) := by omega
-  have hsp := splitLoop_aligned per h64 threads ⟨0, avail⟩ (by simp) (by simpa using hs)
   have hav : (⟨0, avail⟩ : Win).available = avail := by simp [Win.available, Win.alignOffset]
-  simp only [h1, h2, h0, if_false, hq, splitMut, hav, hsp]
+  obtain ⟨rest, hsp⟩ := splitLoop_general per threads ⟨0, avail⟩ (Or.inr (by
+    have h00 : (⟨0, avail⟩ : Win).alignOffset = 0 := by simp [Win.alignOffset]
+    have : splitNeeded threads per = (threads - 1) * nextMult64 per + per := by simp [splitNeeded, h0]
+    rw [h00]; simp only [Nat.zero_add]; omega))
+  have h5 : ¬ (avail < splitNeeded threads per) := by omega
+  simp only [h1, h2, h0, if_false, hq, splitMut, hav, hsp, h5]
   refine ⟨_, rfl, by simp, ?_⟩
   intro j hj
   simp only [List.length_map, List.length_range] at hj
@@ -125,38 +129,35 @@ example : execPrepare 3 8 2 5 384 128 = .ok
 /-- `bit_count = 0`: every bit zeroed, no panic -/
 example : execPrepare 2 8 3 0 128 64 = .ok (List.replicate 8 Act.zero) := by rfl
 
-/- FULL STATEMENT (not proved, false of the code): the same for every per-thread size, not only
-multiples of 64.  `split_mut_counterexample` is the witness. -/
-
-/-- **split_mut (aligned sizes).**  From a 64-aligned window, `split_mut(n, len)` with `len` a
-multiple of 64 and `n·len ≤ available` succeeds and returns the `n` consecutive, pairwise disjoint
-windows `[start + k·len, start + (k+1)·len)`. -/
-theorem split_mut_partial (w : Win) (n len : Nat) (hw : w.start % 64 = 0) (hl : len % 64 = 0)
-    (ha : n * len ≤ w.available) :
-    splitMut w n len = .ok ((List.range n).map (fun k => (⟨w.start + k * len, len⟩ : Win)),
-      ⟨w.start + n * len, w.len - n * len⟩) := by
-  have hav : w.available = w.len := by simp [Win.available, Win.alignOffset, hw]
+/-- **split_mut.**  From any window, `split_mut(n, len)` succeeds exactly under its own (repaired) size
+check `available ≥ (n−1)·len.next_multiple_of(64) + len`, for every `len` (multiple of 64 or not), and returns
+`n` windows of `len` bytes starting at the first 64-byte boundary plus `j` rounded-up sizes — pairwise
+disjoint, each 64-aligned. -/
+theorem split_mut_ok (w : Win) (n len : Nat) (hw : w.alignOffset ≤ w.len) (ha : splitNeeded n len ≤ w.available) :
+    ∃ rest, splitMut w n len =
+      .ok ((List.range n).map (fun j => (⟨w.start + w.alignOffset + j * nextMult64 len, len⟩ : Win)), rest) := by
   unfold splitMut
   rw [if_neg (by omega)]
-  exact splitLoop_aligned len hl n w hw (by omega)
+  apply splitLoop_general
+  rcases Nat.eq_zero_or_pos n with h | h
+  · exact Or.inl h
+  · right
+    have : splitNeeded n len = (n - 1) * nextMult64 len + len := by
+      have : n ≠ 0 := by omega
+      simp [splitNeeded, this]
+    unfold Win.available at ha
+    omega
 
 example : splitMut ⟨0, 4096⟩ 3 1024 = .ok ([⟨0, 1024⟩, ⟨1024, 1024⟩, ⟨2048, 1024⟩], ⟨3072, 1024⟩) := by rfl
+/-- the former failing shape (per-thread 320144 ≡ 16 mod 64, two threads): the exact amount the check asks for suffices -/
+example : splitMut ⟨0, 320192 + 320144⟩ 2 320144 = .ok ([⟨0, 320144⟩, ⟨320192, 320144⟩], ⟨640336, 0⟩) := by rfl
+/-- … and one byte less is refused by the assertion, not inside `take_slice_aligned` -/
+example : splitMut ⟨0, 320192 + 320143⟩ 2 320144 = .panic "assert" := by rfl
 
-/-- **split_mut (full statement is false).**  `split_mut`'s own precondition
-(`available ≥ n·len`, the one both multi-threaded entry points assert and document) does not
-prevent the panic inside it: every window after the first is re-aligned to 64 bytes, which costs
-`(64 − len % 64) % 64` bytes per window.  Witness = the per-thread size of
-`fhe_uint_prepare_tmp_bytes` at the crate's test parameters (320144 = 16 mod 64), two threads. -/
-theorem split_mut_counterexample :
-    ¬ (∀ (w : Win) (n len : Nat), w.start % 64 = 0 → n * len ≤ w.available →
-        ∃ r, splitMut w n len = .ok r) := by
-  intro h
-  obtain ⟨r, hr⟩ := h ⟨0, 2 * 320144⟩ 2 320144 (by decide) (by decide)
-  simp [splitMut, splitLoop, takeAligned, Win.available, Win.alignOffset] at hr
 
-theorem execBdd_table_partial (threads outLen outputSize inBits circIn avail per : Nat) (ht : 1 ≤ threads)
+theorem execBdd_table (threads outLen outputSize inBits circIn avail per : Nat) (ht : 1 ≤ threads)
     (hc : 1 ≤ outLen) (hr : outputSize ≤ outLen) (hin : circIn ≤ inBits) (hs : threads * per ≤ avail)
-    (h64 : per % 64 = 0) :
+    (hs2 : splitNeeded threads per ≤ avail) :
     ∃ acts, execBdd threads outLen outputSize inBits circIn avail per = .ok acts ∧ acts.length = outLen ∧
       ∀ j (h : j < acts.length),
         if j < outputSize then ∃ t, t < threads ∧ acts[j] = Act.item t t j
@@ -167,9 +168,14 @@ theorem execBdd_table_partial (threads outLen outputSize inBits circIn avail per
   have h2 : ¬ (avail < threads * per) := by omega
   have h3 : ¬ (outLen < outputSize) := by omega
   have h4 : ¬ (outLen = 0) := by omega
-  have hsp := splitLoop_aligned per h64 threads ⟨0, avail⟩ (by simp) (by simpa using hs)
   have hav : (⟨0, avail⟩ : Win).available = avail := by simp [Win.available, Win.alignOffset]
-  simp only [h1, h2, h3, h4, if_false, hq, splitMut, hav, hsp]
+  have h0 : ¬ (threads = 0) := by omega
+  obtain ⟨rest, hsp⟩ := splitLoop_general per threads ⟨0, avail⟩ (Or.inr (by
+    have h00 : (⟨0, avail⟩ : Win).alignOffset = 0 := by simp [Win.alignOffset]
+    have : splitNeeded threads per = (threads - 1) * nextMult64 per + per := by simp [splitNeeded, h0]
+    rw [h00]; simp only [Nat.zero_add]; omega))
+  have h5 : ¬ (avail < splitNeeded threads per) := by omega
+  simp only [h1, h2, h3, h4, if_false, hq, splitMut, hav, hsp, h5]
   refine ⟨_, rfl, by simp, ?_⟩
   intro j hj
   simp only [List.length_map, List.length_range] at hj
